@@ -233,7 +233,11 @@ impl From<&FluentNumber> for PluralOperands {
             .expect("Failed to generate operands out of FluentNumber");
         if let Some(mfd) = input.options.minimum_fraction_digits {
             if mfd > operands.v {
-                operands.f *= 10_u64.pow(mfd as u32 - operands.v as u32);
+                operands.f = u32::try_from(mfd - operands.v)
+                    .ok()
+                    .and_then(|shift| 10_u64.checked_pow(shift))
+                    .and_then(|scale| operands.f.checked_mul(scale))
+                    .unwrap_or(u64::MAX);
                 operands.v = mfd;
             }
         }
